@@ -54,7 +54,8 @@ def _case(draw):
             'kl_clip': draw(st.sampled_from([1e-3, 1e30])),
             'N': draw(st.integers(2, 4)), 'style': draw(gens.style_strategy()),
             'mem_format': draw(st.sampled_from(['contiguous', 'contiguous', 'channels_last'])),
-            'accum': draw(st.sampled_from([1, 1, 2, 3])), 'autocast': draw(st.sampled_from([False, False, False, True])), 'program': ops}
+            'accum': draw(st.sampled_from([1, 1, 2, 3])), 'autocast': draw(st.sampled_from([False, False, False, True])),
+            'model_cl': draw(st.sampled_from([False, False, False, True])), 'program': ops}
 
 
 def _mid_eval(models, case, seed, pd):
@@ -78,6 +79,8 @@ def _kfac_only_run(case, program, kw, with_mid_eval=True):
     from vkit import kmodel
     pd = kmodel.dt(case['param_dtype'])
     model = kmodel.build_model(case['spec'], pd)
+    if case.get('model_cl'):
+        model = model.to(memory_format=torch.channels_last)
     with warnings.catch_warnings():
         warnings.simplefilter('ignore')
         pre = KFACPreconditioner(model, **kw)
@@ -136,8 +139,8 @@ class C10(Prop):
                    'bit-identity with the twin relies on deterministic CPU kernels (torch.use_deterministic_algorithms is not required for these ops)']
     examples = {'quick': 400, 'thorough': 1200}
     shards = {'quick': 4, 'thorough': 16}
-    required_labels = {'quick': ['nontrivial=True', 'param_dtype=bfloat16', 'param_dtype=float64', 'residual=True', 'frozen=True', 'skipped=True', 'mem_format=channels_last', 'factor_dtype_is_param_dtype=True', 'mid_iteration_eval=True', 'autocast=True', 'mixed_modes=True'],
-                       'thorough': ['nontrivial=True', 'param_dtype=bfloat16', 'param_dtype=float64', 'residual=True', 'frozen=True', 'skipped=True', 'mem_format=channels_last', 'factor_dtype_is_param_dtype=True', 'mid_iteration_eval=True', 'autocast=True', 'mixed_modes=True']}
+    required_labels = {'quick': ['nontrivial=True', 'param_dtype=bfloat16', 'param_dtype=float64', 'residual=True', 'frozen=True', 'skipped=True', 'mem_format=channels_last', 'factor_dtype_is_param_dtype=True', 'mid_iteration_eval=True', 'autocast=True', 'mixed_modes=True', 'model_channels_last=True'],
+                       'thorough': ['nontrivial=True', 'param_dtype=bfloat16', 'param_dtype=float64', 'residual=True', 'frozen=True', 'skipped=True', 'mem_format=channels_last', 'factor_dtype_is_param_dtype=True', 'mid_iteration_eval=True', 'autocast=True', 'mixed_modes=True', 'model_channels_last=True']}
 
     def strategy(self, tier):
         return _case()
@@ -150,6 +153,10 @@ class C10(Prop):
         pd = kmodel.dt(case['param_dtype'])
         model = kmodel.build_model(case['spec'], pd)
         twin = kmodel.build_model(case['spec'], pd)
+        if case.get('model_cl'):
+            # the whole model converted to channels_last (conv weights and their gradients in NHWC storage), as recommended with AMP
+            model = model.to(memory_format=torch.channels_last)
+            twin = twin.to(memory_format=torch.channels_last)
         pats = case['skip_layers']
         if not any(p.requires_grad for p in model.parameters()):
             return passed(False, {'all_frozen': True})    # nothing trainable: no backward pass possible
@@ -199,6 +206,7 @@ class C10(Prop):
         use_amp = bool(case.get('autocast')) and case['param_dtype'] == 'float32'
         amp = (lambda: torch.autocast('cpu', dtype=torch.bfloat16)) if use_amp else contextlib.nullcontext
         labels['autocast'] = use_amp
+        labels['model_channels_last'] = bool(case.get('model_cl')) and any(L['t'] == 'conv' for L in case['spec']['layers'])
         for i, op in enumerate(case['program']):
             train = op['op'] == 'train'
             saw_eval |= not train
